@@ -1128,7 +1128,7 @@ def stream_runner(ctx: Ctx) -> Stream:
 	rng = ctx.sub_rng('runner')
 	cases = []
 	with ctx.timed('runner_real'):
-		dl = new_deadline('stream runner', ctx.scale(90, 600))
+		dl = new_deadline('stream runner', ctx.scale(240, 900))
 		for rec in load_corpus():
 			if rec.get('stream') == 'runner' or rec.get('search') in ('fixpoint', 'force'):
 				try:
@@ -1474,7 +1474,7 @@ def search_fixpoint(ctx: Ctx) -> SearchResult:
 	seen: set[str] = set()
 	budget = [ctx.scale(80, 1300)]
 	with ctx.timed('search_fixpoint'):
-		dl = new_deadline('search fixpoint', ctx.scale(120, 700))
+		dl = new_deadline('search fixpoint', ctx.scale(300, 1200))
 
 		def guarded(plan: dict[str, Any] | None, flat: bool, n_ops: int, i: int) -> None:
 			try:
